@@ -290,6 +290,8 @@ def pat_dora(p):
     if k == 'pmut':
         return 'mut ' + p[1]
     if k == 'plit':
+        if p[1] in INT_RANGE and p[2] == INT_RANGE[p[1]][0]:
+            return '-%d%s' % (-p[2], 'i32' if p[1] == T_I32 else 'i64')   # a pattern is a literal, not a call
         s = lit_dora(p[1], p[2])
         return s[1:-1] if s.startswith('(-') else s
     if k == 'ptuple':
@@ -1458,6 +1460,72 @@ def s_enum(g, sc, out, ctx):
     out.append(N('match', var(nm, ty), arms))
 
 
+def s_intmatch(g, sc, out, ctx):
+    """match on an integer scrutinee with literal arms: dense literal sets are lowered to jump tables (selector rebased by
+    the smallest literal, range check, table), sparse ones to a binary search; selectors probe every literal, both
+    neighbours of the range, the extremes of the type and values congruent to a literal modulo 2^32 / 2^8"""
+    r = g.r
+    ty = r.choice([T_I32, T_I64, T_I64, T_I32, T_U8])
+    lo, hi = (0, 255) if ty == T_U8 else INT_RANGE[ty]
+    n = r.randint(3, 9)
+    dense = r.random() < 0.7
+    if ty == T_U8:
+        base = r.choice([0, 1, 5, 200, 255 - 2 * n])
+    elif ty == T_I32:
+        base = r.choice([0, 1, -1, 5, -7, 100, lo, lo + 1, hi - 2 * n, -2 * n, 65530])
+    else:
+        base = r.choice([0, 1, -1, 5, -7, lo, lo + 1, hi - 2 * n, 2 ** 32 - 2, 2 ** 32, -2 ** 32 - 1, 5000000000, 2 ** 31 - 3,
+                         -2 ** 31 - 2])
+    vals = set()
+    v = base
+    while len(vals) < n and v <= hi:
+        vals.add(v)
+        v += r.choice([1, 1, 1, 2, 3]) if dense else r.choice([1, 129, 1000, 2 ** 20, 2 ** 33 if ty == T_I64 else 70000])
+    vals = sorted(x for x in vals if lo <= x <= hi)
+    if len(vals) < 2:
+        return
+    order = list(vals)
+    r.shuffle(order)
+    fn = g.fresh('im')
+    res = {}
+    arms = []
+    for i, x in enumerate(order):
+        res[x] = 10 * (i + 1) + (x % 7)
+        arms.append((('plit', ty, x), lit(T_I64, res[x])))
+    bind = r.random() < 0.3
+    if bind:
+        # a binding arm returns something computed from the selector (wrapping is not involved: a conversion)
+        arms.append((('pvar', 'o'), lit(T_I64, -5)))
+    else:
+        arms.append((('pwild',), lit(T_I64, -5)))
+    g.decls.append(fn_decl(fn, [('x', ty)], T_I64, block(N('match', var('x', ty), arms, ty=T_I64))))
+    sel = set(vals)
+    sel.update([vals[0] - 1, vals[-1] + 1, lo, hi, lo + 1, hi - 1, 0, -1, 1])
+    for x in vals[:3] + vals[-2:]:
+        for k in (1, 2, -1, -2, 3, -3):
+            sel.add(x + k * 2 ** 32)
+            sel.add(x + k * 2 ** 31)
+            sel.add(x + k * 256)
+            sel.add(x + k * 2 ** 16)
+    sel = sorted(x for x in sel if lo <= x <= hi)
+    if len(sel) > 28:
+        keep = set(vals) | {vals[0] - 1, vals[-1] + 1, lo, hi}
+        rest = [x for x in sel if x not in keep]
+        r.shuffle(rest)
+        sel = sorted(x for x in (keep | set(rest[:28 - len(keep)])) if lo <= x <= hi)
+    g.feat('match', 'intmatch', 'intmatch-dense' if dense else 'intmatch-sparse')
+    g.boundary = True
+    for i in range(0, len(sel), 4):
+        chunk = sel[i:i + 4]
+        es = []
+        for x in chunk:
+            a = lit(ty, x)
+            if r.random() < 0.5:
+                a = call('gid', ('targs', ty), a, ty=ty)
+            es.append(call(fn, a, ty=T_I64))
+        out.append(g.show(*es, tag='im'))
+
+
 def s_option(g, sc, out, ctx):
     r = g.r
     t = r.choice([T_I32, T_I64, T_BOOL, T_CHAR])
@@ -1724,7 +1792,7 @@ def s_return(g, sc, out, ctx):
 
 SCENARIOS = [(s_lets, 5), (s_print, 4), (s_assign, 3), (s_if, 3), (s_while, 2), (s_for, 2), (s_tuple, 2),
              (s_struct, 2), (s_class, 2), (s_enum, 2), (s_option, 2), (s_array, 2), (s_vec, 2), (s_lambda, 2),
-             (s_trait, 2), (s_calls, 3), (s_pressure, 1), (s_probe, 4), (s_global, 1)]
+             (s_trait, 2), (s_calls, 3), (s_pressure, 1), (s_probe, 4), (s_global, 1), (s_intmatch, 2)]
 SIMPLE = [s_lets, s_print, s_assign, s_probe, s_calls, s_if]
 
 
@@ -1845,6 +1913,9 @@ def gen_program(seed, index, kind=None, only=None):
             g.decls.append(dict(k='global', name='G%d' % i, ty=ty, mut=mut, init=lit(ty, r.randint(-100, 100))))
     add_decls(g)
     sc = Scope()
+    if only is None and kind == 'normal' and index % 9 == 4:
+        # every ninth program concentrates on integer matches (jump-table / binary-search lowering at its edges)
+        only = ['s_intmatch', 's_probe', 's_lets']
     ctx = dict(depth=0, only=only)
     n = r.randint(3, 7) if kind == 'normal' else r.randint(1, 4)
     body = gen_block(g, sc, ctx, n)
